@@ -392,6 +392,13 @@ def _stream_case(via, via0, plan, recs, written, tmp, intent=None):
                         latest[(d[1], rc.descriptor_hash(d[1], d[2]))] = (d[1], tuple(tuple(x) for x in d[2]))
                     elif d[0] in ("REC", "GRP") and ri < len(recs):
                         c["ref_decode_ok"] &= _descs_resolve(d, recs[ri], latest)
+                        # ... and carries the type name the record was CREATED with (written down by hand for the fixed
+                        # sequences: a record object whose descriptor was taken over cannot vouch for itself)
+                        if intent is not None and ri < len(intent):
+                            names = [str(m[1][0]) for m in d[2]] if d[0] == "GRP" else [str(d[1][0])]
+                            if names != list(intent[ri]):
+                                c["ref_decode_ok"] = False
+                                c["exc2"] = f"frame {ri} carries type name(s) {names}, the record was created as {list(intent[ri])}"
                         ri += 1
             except Exception as e:
                 c["exc2"] = type(e).__name__ + ":" + str(e)[:80]
